@@ -180,6 +180,9 @@ func (r *recorder) sched(kind string, a, b int64, ch any) {
 // because every other operation on the counter is bracketed too) and releases — so the log order is a
 // linearisation. Blocking operations are logged before (send) or after (receive) they happen.
 func (r *recorder) sink(point string, args ...any) {
+	if !strings.HasPrefix(point, "mt:") && !strings.HasPrefix(point, "yield:mt:") {
+		return // hooks of other properties (C01/C05/C06/C07 share the package): not ours, must not touch a bracket
+	}
 	g := gid()
 	held := r.holder.Load() == g
 	if strings.HasPrefix(point, "yield:") && !held {
